@@ -721,8 +721,72 @@ func (c *c10) Generate(cx *Ctx, chunk int) []*Item {
 			lmeta, _ := json.Marshal(lm)
 			items = append(items, &Item{Cases: []*proto.Case{lc}, Meta: lmeta})
 		}
+		// every 8th clause additionally: clause/2 and retract/1 called with the stored body GIVEN (a fact is `Head :- true`, and
+		// so is a rule whose body is true)
+		if i%8 == 6 {
+			_, body := c10Stored(bound)
+			gm := &c10Meta{Clause: bound, Bound: bound, Arity: ar, Kind: "bodygiven"}
+			ret := "retract((" + hd + " :- B))"
+			if !bound.IsCmp(":-", 2) && g.r.Intn(2) == 0 {
+				ret = "retract(" + hd + ")"
+			}
+			gc := &proto.Case{Kind: "prolog", Setup: []string{c10Helpers, ":- dynamic(p/" + fmt.Sprint(ar) + ")."},
+				Inputs: []*term.Term{bound, body},
+				Steps: []proto.Step{
+					{Query: "verif_in(0, C), " + assert + "(C).", Max: 2},
+					{Query: "verif_in(1, B), clause(" + hd + ", B).", Max: 3},
+					{Query: "verif_in(1, B), " + ret + ".", Max: 3},
+					{Query: "clause(" + hd + ", B).", Max: 3},
+				}}
+			gmeta, _ := json.Marshal(gm)
+			items = append(items, &Item{Cases: []*proto.Case{gc}, Meta: gmeta})
+		}
 	}
 	return items
+}
+
+// judgeBodyGiven: clause/2 and retract/1 with the stored body given by the caller.
+func (c *c10) judgeBodyGiven(m *c10Meta, outs []*run.Outcome) Verdict {
+	out := outs[0]
+	if out.Crash != nil || out.Res == nil {
+		return Verdict{Status: Inconclusive, Msg: "worker died on the body-given case"}
+	}
+	res := out.Res
+	if res.Fatal != "" || len(res.Steps) < 4 {
+		return Verdict{Status: Inconclusive, Msg: "worker: " + res.Fatal}
+	}
+	v := Verdict{Status: Held, NonTrivial: true, Extra: map[string]int64{"clause_and_retract_with_the_body_given": 1}}
+	fail := func(msg string) Verdict {
+		v.Status = Violated
+		v.Msg = fmt.Sprintf("%s | the clause is asserted, then clause/2 and retract/1 are called with its own body as their Body argument: %s", msg, m.Bound)
+		return v
+	}
+	args, body := c10Stored(m.Bound)
+	want := append(append([]*term.Term{}, args...), body)
+	names := []string{"assert", "clause(Head, StoredBody)", "retract with the stored body given", "clause/2 after the retract"}
+	wants := []int{1, 1, 1, 0}
+	for k := 0; k < 4; k++ {
+		st := res.Steps[k]
+		if st.Err != nil {
+			return fail(names[k] + " raised " + st.Err.Text)
+		}
+		if len(st.Answers) != wants[k] {
+			return fail(fmt.Sprintf("%s: %d answers, expected %d", names[k], len(st.Answers), wants[k]))
+		}
+		if k == 1 || k == 2 {
+			a := st.Answers[0]
+			got := make([]*term.Term, 0, m.Arity+1)
+			for i := 0; i < m.Arity; i++ {
+				got = append(got, a[fmt.Sprintf("V%d", i)])
+			}
+			got = append(got, a["B"])
+			if !term.VariantAll(want, got) {
+				return fail(fmt.Sprintf("%s shows %s :- %s, expected a variant of the clause as stored", names[k], term.C("p", got[:m.Arity]...), got[m.Arity]))
+			}
+		}
+	}
+	v.Sample = map[string]interface{}{"clause": m.Bound.String()}
+	return v
 }
 
 // judgeLater: the variables of the clause term were bound by the asserting query after the assert.
@@ -922,6 +986,9 @@ func (c *c10) Judge(cx *Ctx, it *Item, outs []*run.Outcome) Verdict {
 	}
 	if m.Kind == "later" {
 		return c.judgeLater(&m, outs)
+	}
+	if m.Kind == "bodygiven" {
+		return c.judgeBodyGiven(&m, outs)
 	}
 	v := Verdict{Status: Held, Extra: map[string]int64{}}
 	_, alts := clauseAlternatives(m.Bound)
